@@ -83,7 +83,10 @@ theorem step_conserved {c : Cfg} {input : List Nat} {s s' : St} {a : Act}
     try omega)
 
 structure Inv (c : Cfg) (s : St) : Prop where
-  pclosed_kst : s.pclosed = true ↔ s.kst = .exited
+  kst_pclosed : s.kst = .exited → s.pclosed = true
+  pclosed_kst : c.invalid = false → s.pclosed = true → s.kst = .exited
+  /-- rejected options: the constructor closed the pipe; nothing is ever delivered -/
+  invalid_closed : c.invalid = true → s.pclosed = true ∧ s.got = [] ∧ s.pipe = []
   kst_wcancel : s.kst ≠ .waiting ↔ s.wcancel = true
   notstarted : s.started = false → s.kst = .waiting ∧ s.cons ≠ .parked
   done_wdone : s.cons = .done → s.wdone = true
@@ -107,16 +110,17 @@ theorem all_exited_iff (s : St) : s.allProdsExited = true ↔ ∀ (j : Nat) (p :
 set_option maxHeartbeats 1000000 in
 theorem step_inv {c : Cfg} {s s' : St} {a : Act}
     (h : Inv c s) (hs : step c s a = some s') : Inv c s' := by
-  obtain ⟨h1, h2, h3, h4, h5⟩ := h
+  obtain ⟨h1, h1b, h1c, h2, h3, h4, h5⟩ := h
   cases a <;> simp only [step] at hs <;> (repeat' (split at hs)) <;> cases hs
   all_goals (constructor <;> first | (simp_all [St.wdone, St.wdone2]; done) | grind [St.wdone, St.wdone2])
 
 set_option maxHeartbeats 1000000 in
 theorem step_clean {c : Cfg} {input : List Nat} {s s' : St} {a : Act}
-    (hi : Inv c s) (h : s.envStopped = false → Clean c input s) (hs : step c s a = some s') :
-    s'.envStopped = false → Clean c input s' := by
+    (hv : c.invalid = false) (hi : Inv c s) (h : s.envStopped = false → Clean c input s)
+    (hs : step c s a = some s') : s'.envStopped = false → Clean c input s' := by
   intro he
-  obtain ⟨h1, h2, h3, h4, h5⟩ := hi
+  have h1' := hi.pclosed_kst hv
+  obtain ⟨h1, h1b, h1c, h2, h3, h4, h5⟩ := hi
   have hall := all_exited_iff s
   cases a <;> simp only [step] at hs <;> (repeat' (split at hs)) <;> cases hs
   all_goals (first | (simp at he; done) | skip)
@@ -140,7 +144,7 @@ def Order1 (input : List Nat) (s : St) : Prop :=
 theorem step_order1 {c : Cfg} {input : List Nat} {s s' : St} {a : Act}
     (hi : Inv c s) (ho : Order1 input s) (hs : step c s a = some s') : Order1 input s' := by
   intro hlen
-  obtain ⟨h1, h2, h3, h4, h5⟩ := hi
+  obtain ⟨h1, h1b, h1c, h2, h3, h4, h5⟩ := hi
   cases a <;> simp only [step] at hs <;> (repeat' (split at hs)) <;> cases hs
   all_goals (simp only [List.length_set] at hlen)
   all_goals (obtain ⟨o1, o2⟩ := ho hlen)
@@ -161,11 +165,11 @@ theorem step_order1 {c : Cfg} {input : List Nat} {s s' : St} {a : Act}
 def inputOf (privs : List (List Nat)) (shared : List Nat) : List Nat := privs.flatten ++ shared
 
 theorem inv_init (c : Cfg) (privs : List (List Nat)) (shared : List Nat) (k1 k2 : Nat) :
-    Inv c (init privs shared k1 k2) := by
-  constructor <;> simp [init, St.wdone]
+    Inv c (init c privs shared k1 k2) := by
+  constructor <;> cases hv : c.invalid <;> simp [init, St.wdone, hv]
 
-theorem conserved_init (privs : List (List Nat)) (shared : List Nat) (k1 k2 : Nat) :
-    Conserved (inputOf privs shared) (init privs shared k1 k2) := by
+theorem conserved_init (c : Cfg) (privs : List (List Nat)) (shared : List Nat) (k1 k2 : Nat) :
+    Conserved (inputOf privs shared) (init c privs shared k1 k2) := by
   intro a
   simp [init, St.items, inputOf, List.flatMap_map]
   congr 1
@@ -173,12 +177,12 @@ theorem conserved_init (privs : List (List Nat)) (shared : List Nat) (k1 k2 : Na
   | nil => simp
   | cons l ls ih => simp [List.count_append, ih]
 
-theorem clean_init (c : Cfg) (privs : List (List Nat)) (shared : List Nat) (k1 k2 : Nat) :
-    Clean c (inputOf privs shared) (init privs shared k1 k2) := by
-  constructor <;> simp [init]
+theorem clean_init (c : Cfg) (privs : List (List Nat)) (shared : List Nat) (k1 k2 : Nat) (hv : c.invalid = false) :
+    Clean c (inputOf privs shared) (init c privs shared k1 k2) := by
+  constructor <;> simp [init, hv]
 
-theorem order1_init (privs : List (List Nat)) (shared : List Nat) (k1 k2 : Nat) :
-    Order1 (inputOf privs shared) (init privs shared k1 k2) := by
+theorem order1_init (c : Cfg) (privs : List (List Nat)) (shared : List Nat) (k1 k2 : Nat) :
+    Order1 (inputOf privs shared) (init c privs shared k1 k2) := by
   intro hl
   match privs with
   | [l] => simp [init, inputOf]
@@ -188,17 +192,17 @@ theorem order1_init (privs : List (List Nat)) (shared : List Nat) (k1 k2 : Nat) 
 structure Good (c : Cfg) (input : List Nat) (s : St) : Prop where
   inv : Inv c s
   conserved : Conserved input s
-  clean : s.envStopped = false → Clean c input s
+  clean : c.invalid = false → s.envStopped = false → Clean c input s
   order1 : Order1 input s
 
 theorem good_init (c : Cfg) (privs : List (List Nat)) (shared : List Nat) (k1 k2 : Nat) :
-    Good c (inputOf privs shared) (init privs shared k1 k2) :=
-  ⟨inv_init c privs shared k1 k2, conserved_init privs shared k1 k2, fun _ => clean_init c privs shared k1 k2,
-   order1_init privs shared k1 k2⟩
+    Good c (inputOf privs shared) (init c privs shared k1 k2) :=
+  ⟨inv_init c privs shared k1 k2, conserved_init c privs shared k1 k2, fun hv _ => clean_init c privs shared k1 k2 hv,
+   order1_init c privs shared k1 k2⟩
 
 theorem step_good {c : Cfg} {input : List Nat} {s s' : St} {a : Act}
     (h : Good c input s) (hs : step c s a = some s') : Good c input s' :=
-  ⟨step_inv h.inv hs, step_conserved h.conserved hs, step_clean h.inv h.clean hs, step_order1 h.inv h.order1 hs⟩
+  ⟨step_inv h.inv hs, step_conserved h.conserved hs, fun hv => step_clean hv h.inv (h.clean hv) hs, step_order1 h.inv h.order1 hs⟩
 
 theorem run_good {c : Cfg} {input : List Nat} (as : List Act) : ∀ {s s' : St},
     Good c input s → run c s as = some s' → Good c input s' := by
@@ -291,11 +295,11 @@ theorem exists_live {s : St} (h : s.allProdsExited = false) :
 
 /-- failure-free and ended: every source is drained and nothing is in flight -/
 theorem terminal_items {c : Cfg} {input : List Nat} {s : St} (h : Good c input s) (hn : 0 < s.prods.length)
-    (hclean : s.envStopped = false) (ht : s.terminal = true) :
+    (hv : c.invalid = false) (hclean : s.envStopped = false) (ht : s.terminal = true) :
     s.pipe = [] ∧ s.dropped = [] ∧ s.shared = [] ∧ s.prods.flatMap (fun p => p.held.toList) = [] ∧
       s.prods.flatMap (·.src) = [] := by
-  obtain ⟨⟨h1, h2, h3, h4, h5⟩, _, hc, _⟩ := h
-  obtain ⟨c1, c2, c3, c4, c5⟩ := hc hclean
+  obtain ⟨⟨h1, h1b, h1c, h2, h3, h4, h5⟩, _, hc, _⟩ := h
+  obtain ⟨c1, c2, c3, c4, c5⟩ := hc hv hclean
   simp only [St.terminal, St.allExited, Bool.and_eq_true, Bool.or_eq_true, decide_eq_true_eq, Bool.not_eq_true'] at ht
   obtain ⟨hall, hdone⟩ := ht
   have hwd := h4 hdone
@@ -341,7 +345,7 @@ theorem terminal_noleak {s : St} (ht : s.terminal = true) :
 
 theorem no_deadlock_internal {c : Cfg} {s : St} (h : Inv c s)
     (hnt : s.terminal = false) : ∃ a, a.isEnv = false ∧ (step c s a).isSome = true := by
-  obtain ⟨h1, h2, h3, h4, h5⟩ := h
+  obtain ⟨h1, h1b, h1c, h2, h3, h4, h5⟩ := h
   by_cases hci : s.cons = .idle
   · exact ⟨.cStart, rfl, by simp only [step]; split <;> (try split) <;> simp_all⟩
   by_cases hkc : s.kst = .cancelled
@@ -395,7 +399,7 @@ theorem no_deadlock_internal {c : Cfg} {s : St} (h : Inv c s)
         | parked =>
           cases hpi : s.pipe with
           | cons y ys => exact ⟨.cRecv, rfl, by simp [step, hc, hpi]⟩
-          | nil => exact ⟨.cEof, rfl, by simp [step, hc, hpi, h1.mpr hk]⟩
+          | nil => exact ⟨.cEof, rfl, by simp [step, hc, hpi, h1 hk]⟩
 
 theorem no_deadlock_stopped {c : Cfg} {s : St}
     (hw : s.wdone = true) (hne : s.allExited = false) :
